@@ -18,17 +18,24 @@ Explained(ev) ==
 
 TInit ==
   /\ l = 1 /\ op = "none" /\ fmt = <<>> /\ args = <<>> /\ pos = 1 /\ argIdx = 1 /\ out = <<>>
-  /\ phase = "run" /\ outcome = "ok"
+  /\ phase = "run" /\ outcome = "ok" /\ hex = FALSE /\ cont = "new" /\ hist = <<>>
 
 TReset ==
   /\ l <= TraceLen /\ TraceLog[l].e = "Reset"
   /\ l' = l + 1 /\ op' = "none" /\ fmt' = <<>> /\ args' = <<>> /\ pos' = 1 /\ argIdx' = 1 /\ out' = <<>>
-  /\ phase' = "run" /\ outcome' = "ok"
+  /\ phase' = "run" /\ outcome' = "ok" /\ hex' = FALSE /\ cont' = "new" /\ hist' = <<>>
 
 TCall ==
   /\ l <= TraceLen /\ TraceLog[l].e # "Reset"
   /\ LET ev == TraceLog[l] IN
        /\ Explained(ev)
+       \* an event that continues the formatter object of the previous event is a step RenderAgain / SupplyMore
+       /\ ev.cont \in {"new", "again", "mod", "args"}
+       /\ ev.cont # "new" => op = "format" /\ ev.e = "format" /\ ev.fmt = fmt
+       /\ ev.cont = "again" => ev.args = args
+       /\ ev.cont \in {"mod", "args"} => Len(ev.args) = Len(args) + 1 /\ SubSeq(ev.args, 1, Len(args)) = args
+       /\ cont' = ev.cont /\ hex' = FALSE
+       /\ hist' = (IF op = "none" THEN <<>> ELSE <<Rec>>)     \* the previous operation (AgainIsSame looks one back)
        /\ op' = ev.e /\ fmt' = ev.fmt /\ args' = ev.args
        /\ out' = (IF ev.e = "format" THEN FormatD(ev.fmt, ev.args).out ELSE MessageD(ev.args))
        /\ outcome' = (IF ev.e = "format" THEN FormatD(ev.fmt, ev.args).outcome ELSE "raise")
@@ -37,6 +44,8 @@ TCall ==
 
 TNext == TReset \/ TCall
 TSpec == TInit /\ [][TNext]_<<vars, l>>
+(* the same formatter rendered again gives what it gave (the previous operation is hist[1]) *)
+TAgainIsSame == cont = "again" /\ hist # <<>> => out = hist[1].out /\ outcome = hist[1].outcome
 Track == TrackCursor(l)
 Report == ReportMatched
 =============================================================================
